@@ -85,13 +85,18 @@ Definition oracle_c19 (date : bytes) (init : option N) (ctor_headers : list head
       let want := map (fun h => mkH (hname h) (trim_ows (hvalue h)))
                       (policy_headers date (supplied_of ctor_headers ops) up) in
       let n := List.length want in
+      (* the VALUE of the automatic Server header is not constrained by the property: when the
+         application supplied none, whatever value the implementation sends is accepted *)
+      let supplied_server := existsb is_server (keep (supplied_of ctor_headers ops)) in
+      let got := if supplied_server then p_headers p
+                 else map (fun h => if is_server h then mkH (hname h) (s "tiny-http (Rust)") else h) (p_headers p) in
       (* the policy block, then nothing but (at most) the one framing header raw_print appends *)
-      let extra_ok := match skipn n (p_headers p) with
+      let extra_ok := match skipn n got with
                       | [] => true
                       | [h] => is_framing h
                       | _ => false
                       end in
-      if negb (beq_headers (firstn n (p_headers p)) want && extra_ok)
+      if negb (beq_headers (firstn n got) want && extra_ok)
       then VFail (s "header block differs from the policy")
       else if negb (beq_optN getter_dl (declared_length init ctor_headers ops))
       then VFail (s "declared length differs from what the constructors and Content-Length headers declare")
